@@ -6,9 +6,9 @@ package main
 
 import (
 	"go/ast"
-	"strings"
 	"go/token"
 	"go/types"
+	"strings"
 )
 
 type defInfo struct {
@@ -254,7 +254,6 @@ func (m *Model) isTreeRecv(v *types.Var) bool {
 	return v != nil && m.treeByNamed(namedOf(v.Type())) != nil
 }
 
-
 // unitByBase finds the function called name, or the only method called name (a helper may have
 // been turned into a method of the reference type).
 func (m *Model) unitByBase(name string) *FuncUnit {
@@ -291,7 +290,6 @@ func (m *Model) helperOperand(call *ast.CallExpr, base string) (ast.Expr, bool) 
 	}
 	return nil, false
 }
-
 
 // isRestoreUnit: a function or method that turns a leaf pointer back into the caller's key and
 // value: (unsafe.Pointer) → (K, V).
@@ -345,7 +343,6 @@ func (m *Model) restoreUnit(tk *TreeKind) *FuncUnit {
 	}
 	return found
 }
-
 
 // effectiveMethod: the function that carries the algorithm of a tree method. A method that only
 // prepares the key and then hands over to another method of the same tree (`return t.unlink(keyS,
@@ -431,7 +428,6 @@ func (m *Model) algorithmUnit(tk *TreeKind, name string) *FuncUnit {
 	}
 	return u
 }
-
 
 // pushCall recognises a push onto a slice-typed stack: `q = append(q, e)` (as an assignment) or
 // `q.push(e)` where push is a method with a pointer receiver of a slice type whose body is
